@@ -17,6 +17,7 @@ import Driver.OpsStruct3
 import Driver.OpsLeafQ
 import Driver.OpsGraphIo
 import Driver.OpsStruct4
+import Driver.OpsStruct5
 /-
 Line-protocol driver: one JSON object per input line, one answer line per input line.
 Run with `lake env lean --run Driver/Main.lean < ops.jsonl`.
@@ -92,7 +93,8 @@ def handle (st : St) (j : Json) : Except String (St × String) := do
       handleStruct3 st.net o j,
       handleLeafQ o j,
       handleGraphIo o j,
-      handleStruct4 st.net o j ]
+      handleStruct4 st.net o j,
+      handleStruct5 o j ]
     match exts.findSome? id with
     | some r => do let a ← r; pure (st, a)
     | none => .error s!"unknown op {o}"
